@@ -47,7 +47,7 @@ def plan(tier: str, seed: int):
                "args": {"mode": "exhaustive", "cfg": list(c)},
                "timeout": 1800} for i, c in enumerate(settings)]
     nr = 4 if tier == "quick" else 16
-    per = 1500 if tier == "quick" else 40000
+    per = 1500 if tier == "quick" else 100000
     for i in range(nr):
         shards.append({"name": f"rnd{i}", "engine": "jit",
                        "args": {"mode": "random", "n": per},
